@@ -398,4 +398,289 @@ End Axis.
 
 End Generic.
 
+(* ================================================================== concrete statements of the generated programs *)
+Lemma exec_seq (e : V) a b (s : state) : exec e (SSeq a b) s = bind (exec e a s) (exec e b).
+Proof. reflexivity. Qed.
+
+Lemma adv_up_syn (e : V) a :
+  adv_up_spec e (SSet (VIdx a) (EBin Rem U64 (EBin Add U64 (EVar (VIdx a)) (ECast U64 (ELit 1))) (EVar (VN a)))) a.
+Proof.
+  intros s i n HN HI Hlt Hb. apply exec_set.
+  assert (T : 2 ^ 31 < two64) by reflexivity. pose proof two64_pos.
+  assert (R : Z.rem (Z.of_nat i + 1) (Z.of_nat n) = Z.of_nat ((i + 1) mod n)).
+  { rewrite Z.rem_mod_nonneg by lia. rewrite Nat2Z.inj_mod, Nat2Z.inj_add. reflexivity. }
+  assert (Hm : (0 <= (i + 1) mod n < n)%nat) by (split; [lia|apply Nat.mod_upper_bound; lia]).
+  rewrite safe_eval.
+  - cbn [evalZ opZ]. rewrite HN, HI, R. reflexivity.
+  - cbn [safe evalZ okop opZ inrange]. rewrite HN, HI, R. repeat split; lia.
+Qed.
+
+Lemma adv_down_syn (e : V) a :
+  adv_down_spec e (SSet (VIdx a) (EBin Rem U64 (EBin Add U64 (EVar (VIdx a)) (EVar (VNm1 a))) (EVar (VN a)))) a.
+Proof.
+  intros s i n HN HM HI Hlt Hb. apply exec_set.
+  assert (T : 2 ^ 32 < two64) by reflexivity. pose proof two64_pos.
+  assert (R : Z.rem (Z.of_nat i + (Z.of_nat n - 1)) (Z.of_nat n) = Z.of_nat ((i + (n - 1)) mod n)).
+  { rewrite Z.rem_mod_nonneg by lia. rewrite Nat2Z.inj_mod, Nat2Z.inj_add, Nat2Z.inj_sub by lia. reflexivity. }
+  assert (Hm : (0 <= (i + (n - 1)) mod n < n)%nat) by (split; [lia|apply Nat.mod_upper_bound; lia]).
+  rewrite safe_eval.
+  - cbn [evalZ opZ]. rewrite HN, HM, HI, R. reflexivity.
+  - cbn [safe evalZ okop opZ inrange]. rewrite HN, HM, HI, R. repeat split; lia.
+Qed.
+
+(* the offset update  (off + n + k % static_cast<int>(n)) % n  with its int -> size_t conversion: this is new_offset *)
+Definition offset_expr (a : nat) : expr :=
+  EBin Rem U64 (EBin Add U64 (EBin Add U64 (EVar (VOff a)) (EVar (VN a)))
+                             (ECast U64 (EBin Rem I32 (EVar (VPar a)) (ECast I32 (EVar (VN a)))))) (EVar (VN a)).
+
+Lemma offset_update (s : state) a off n k :
+  get s (VOff a) = Z.of_nat off -> get s (VN a) = Z.of_nat n -> get s (VPar a) = k ->
+  (0 < n)%nat -> Z.of_nat n < 2 ^ 31 -> - two31 <= k < two31 ->
+  eval (offset_expr a) s = Some (Z.of_nat (new_offset off n k)).
+Proof.
+  intros HO HN HK Pn Bn Hk. unfold offset_expr. cbn [eval]. rewrite HO, HN, HK.
+  assert (T : 2 ^ 31 = two31) by reflexivity.
+  rewrite (norm_inrange I32 (Z.of_nat n)) by (cbn; unfold two31 in *; lia).
+  pose proof (Z.rem_bound_abs k (Z.of_nat n) ltac:(lia)) as Hb.
+  rewrite (binop_ok Rem I32 k (Z.of_nat n)) by (cbn; split; [lia|unfold two31 in *; lia]).
+  cbn [binop norm opZ].
+  destruct (Z.eqb_spec (Z.of_nat n) 0) as [E0|_]; [lia|]. f_equal.
+  unfold new_offset. rewrite Z2Nat.id by (apply Z.mod_pos_bound; lia).
+  set (S := ((Z.of_nat off + Z.of_nat n) mod two64 + Z.rem k (Z.of_nat n) mod two64) mod two64).
+  assert (HS : 0 <= S) by (apply Z.mod_pos_bound; reflexivity).
+  rewrite Z.rem_mod_nonneg by lia. apply Z.mod_small.
+  pose proof (Z.mod_pos_bound S (Z.of_nat n) ltac:(lia)). assert (T2 : 2 ^ 31 < two64) by reflexivity. lia.
+Qed.
+
+Definition seq1 (p : stmt) : stmt := match p with SSeq a _ => a | _ => SSkip end.
+Definition seq2 (p : stmt) : stmt := match p with SSeq _ b => b | _ => SSkip end.
+
+Lemma blank_app (g : wgrid) (e : V) cells c : blank g e (cells ++ [c]) = set_nth (lin g c) e (blank g e cells).
+Proof. unfold blank. rewrite fold_left_app. reflexivity. Qed.
+Lemma blank_length (g : wgrid) (e : V) cells : length (blank g e cells) = length (g_buf g).
+Proof. apply fold_set_length. Qed.
+
+Lemma flat_map_single {X Y} (f : X -> Y) l : flat_map (fun x => [f x]) l = map f l.
+Proof. induction l as [|x l IH]; cbn; [reflexivity|]. rewrite IH. reflexivity. Qed.
+
+
+Lemma ex_imp {A} (P Q : A -> Prop) : (exists x, P x) -> (forall x, P x -> Q x) -> exists x, Q x.
+Proof. intros [x H] HI. exists x. auto. Qed.
+
+Lemma reassoc_runs (e : V) r u d o (s : state) :
+  exec e (SSeq r (SSeq u (SSeq d o))) s = bind (exec e (SSeq r (SSeq u (SSeq SSkip d))) s) (exec e o).
+Proof. cbn [exec]. destruct (exec e r s) as [s1|]; cbn [bind]; [|reflexivity]. destruct (exec e u s1) as [s2|]; cbn [bind]; [|reflexivity]. reflexivity. Qed.
+
+Definition for_body (p : stmt) : stmt := match p with SFor _ _ _ b _ => b | _ => SSkip end.
+Definition if_then (p : stmt) : stmt := match p with SIf _ a _ => a | _ => SSkip end.
+
+Definition mod_x (v : var) : bool := match v with VIdx 0 | VCnt 0 => true | _ => false end.
+Definition mod_none (v : var) : bool := false.
+Definition mod_x0 (v : var) : bool := match v with VIdx 0 => true | _ => false end.
+Definition mod_xy (v : var) : bool := match v with VIdx 0 | VIdx 1 | VCnt 0 => true | _ => false end.
+Definition mod_xy0 (v : var) : bool := match v with VIdx 0 | VIdx 1 => true | _ => false end.
+
+(* the state after one axis: blanked buffer + updated offset = the model's translate step *)
+Lemma St_after_x (g : wgrid) (e : V) kx ky kz s : valid g -> kx <> 0 -> St g e kx ky kz (cells_x g kx) s ->
+  St (translate_x g kx e) e kx ky kz [] (set s (VOff 0) (Z.of_nat (new_offset (g_ox g) (g_nx g) kx))).
+Proof.
+  intros Hv Hne (F & P & Bf). unfold translate_x. destruct (Z.eqb_spec kx 0) as [|_]; [contradiction|].
+  split; [|split].
+  - unfold frame, frame3, frame2 in *. cbn [set_ox blank_cells with_buf g_dim3 g_nx g_ny g_nz g_ox g_oy g_oz].
+    destruct (g_dim3 g); gs; tauto.
+  - unfold pars in *. cbn [set_ox blank_cells with_buf g_dim3]. gs. exact P.
+  - rewrite buf_set, Bf. reflexivity.
+Qed.
+Lemma St_after_y (g : wgrid) (e : V) kx ky kz s : valid g -> ky <> 0 -> St g e kx ky kz (cells_y g ky) s ->
+  St (translate_y g ky e) e kx ky kz [] (set s (VOff 1) (Z.of_nat (new_offset (g_oy g) (g_ny g) ky))).
+Proof.
+  intros Hv Hne (F & P & Bf). unfold translate_y. destruct (Z.eqb_spec ky 0) as [|_]; [contradiction|].
+  split; [|split].
+  - unfold frame, frame3, frame2 in *. cbn [set_oy blank_cells with_buf g_dim3 g_nx g_ny g_nz g_ox g_oy g_oz].
+    destruct (g_dim3 g); gs; tauto.
+  - unfold pars in *. cbn [set_oy blank_cells with_buf g_dim3]. gs. exact P.
+  - rewrite buf_set, Bf. reflexivity.
+Qed.
+Lemma St_after_z (g : wgrid) (e : V) kx ky kz s : valid g -> kz <> 0 -> St g e kx ky kz (cells_z g kz) s ->
+  St (translate_z g kz e) e kx ky kz [] (set s (VOff 2) (Z.of_nat (new_offset (g_oz g) (g_nz g) kz))).
+Proof.
+  intros Hv Hne (F & P & Bf). unfold translate_z. destruct (Z.eqb_spec kz 0) as [|_]; [contradiction|].
+  split; [|split].
+  - unfold frame, frame3, frame2 in *. cbn [set_oz blank_cells with_buf g_dim3 g_nx g_ny g_nz g_ox g_oy g_oz].
+    destruct (g_dim3 g); gs; tauto.
+  - unfold pars in *. cbn [set_oz blank_cells with_buf g_dim3]. gs. exact P.
+  - rewrite buf_set, Bf. reflexivity.
+Qed.
+
+Ltac sem := first [ apply adv_up_syn | apply adv_down_syn | intros; reflexivity | left; intros; reflexivity | right; intros; reflexivity | (unfold two31; lia) ].
+
+(* ================================================================== 2D *)
+Section TwoD.
+Variables (g : wgrid) (e : V) (kx ky : Z).
+Hypothesis Hv : valid g.
+Hypothesis Hd : g_dim3 g = false.
+Hypothesis Hf : fits g.
+Hypothesis Hk : - two31 <= kx < two31 /\ - two31 <= ky < two31.
+
+Definition W2 : stmt := SBufSet (ECall src_linear_index_2d [EVar (VIdx 0); EVar (VIdx 1)]).
+
+Lemma HW2 : forall cells s x y z, St g e kx ky 0 cells s -> get s (VIdx 0) = Z.of_nat x -> yz_at g s y z ->
+  (x < g_nx g)%nat -> (y < g_ny g)%nat -> (z < g_nz g)%nat ->
+  exists s', exec e W2 s = Some s' /\ St g e kx ky 0 (cells ++ [(x, y, z)]) s' /\ (forall v, get s' v = get s v).
+Proof.
+  intros cells s x y z (F & P & Bf) Hx (Hy & Hz) Lx Ly Lz. unfold yz_at in *. rewrite Hd in Hz. subst z.
+  assert (Fr : frame2 g s) by (unfold frame in F; rewrite Hd in F; exact F).
+  assert (E : eval (ECall src_linear_index_2d [EVar (VIdx 0); EVar (VIdx 1)]) s = Some (Z.of_nat (lin g (x, y, 0%nat)))).
+  { change (eval (ECall src_linear_index_2d [EVar (VIdx 0); EVar (VIdx 1)]) s)
+      with (eval src_linear_index_2d (set (set s (VArg 0) (get s (VIdx 0))) (VArg 1) (get s (VIdx 1)))).
+    apply linear_index_2d; try assumption. }
+  assert (Hlen : (lin g (x, y, 0%nat) < length (s_buf s))%nat) by (rewrite Bf, blank_length; apply lin_lt, Hv).
+  unfold W2. rewrite (exec_bufset e _ s _ E Hlen). eexists; split; [reflexivity|]. split; [|reflexivity].
+  split; [apply frame_set_buf, F|]. split; [exact P|]. rewrite buf_set_buf, Bf, blank_app. reflexivity.
+Qed.
+
+Definition x_if_2d : stmt := seq1 src_translate_2d.
+Definition y_if_2d : stmt := seq2 src_translate_2d.
+Lemma split_2d : src_translate_2d = SSeq x_if_2d y_if_2d. Proof. reflexivity. Qed.
+
+Lemma nz_1 : g_nz g = 1%nat. Proof. destruct Hv as (_ & _ & _ & _ & _ & _ & _ & H & _). exact (H Hd). Qed.
+
+Lemma cells_x_2d k : cells_x g k = flat_map (fun y => row y 0 (axis_run (g_nx g) k)) (all (g_ny g)).
+Proof. unfold cells_x. rewrite nz_1. cbn. rewrite app_nil_r. reflexivity. Qed.
+Lemma cells_y_2d k : cells_y g k = flat_map (fun y => row y 0 (all (g_nx g))) (axis_run (g_ny g) k).
+Proof. unfold cells_y. rewrite nz_1. cbn. rewrite app_nil_r. reflexivity. Qed.
+
+Lemma Hk3 : - two31 <= kx < two31 /\ - two31 <= ky < two31 /\ - two31 <= 0 < two31.
+Proof. unfold two31 in *. lia. Qed.
+
+Lemma frame2_of s : frame g s -> frame2 g s. Proof. unfold frame. rewrite Hd. tauto. Qed.
+
+Lemma HN0 s : frame g s -> get s (VN 0) = Z.of_nat (g_nx g) /\ get s (VNm1 0) = Z.of_nat (g_nx g) - 1.
+Proof. intros F. apply frame2_of in F. unfold frame2 in F. tauto. Qed.
+Lemma HN1 s : frame g s -> get s (VN 1) = Z.of_nat (g_ny g) /\ get s (VNm1 1) = Z.of_nat (g_ny g) - 1.
+Proof. intros F. apply frame2_of in F. unfold frame2 in F. tauto. Qed.
+
+Definition x_body_2d : stmt := for_body (seq1 (if_then x_if_2d)).
+
+Lemma nb : (0 < g_nx g)%nat /\ (0 < g_ny g)%nat /\ (0 < g_nz g)%nat /\
+  Z.of_nat (g_nx g) < 2 ^ 31 /\ Z.of_nat (g_ny g) < 2 ^ 31 /\ Z.of_nat (g_nz g) < 2 ^ 31.
+Proof. destruct Hv as (A & B & C & _ & _ & _ & _ & _ & D). tauto. Qed.
+
+Lemma mod_x_keep v : mod_x v = false -> var_eqb v (VIdx 0) = false /\ var_eqb v (VCnt 0) = false.
+Proof. destruct v as [[|?]|?|?|?|?|?|?|[|?]|?]; cbn; intros H; try discriminate H; split; reflexivity. Qed.
+
+Lemma x_body_2d_ok cells s i : St g e kx ky 0 cells s -> get s (VIdx 1) = Z.of_nat i -> (i < g_ny g)%nat ->
+  exists s', exec e x_body_2d s = Some s' /\ St g e kx ky 0 (cells ++ row i 0 (axis_run (g_nx g) kx)) s' /\
+             (forall v, mod_x v = false -> get s' v = get s v).
+Proof.
+  intros HSt Hi Li. pose proof nb as (Px & Py & Pz & Bx & By & Bz).
+  unfold x_body_2d, x_if_2d, src_translate_2d. cbn [for_body seq1 if_then].
+  edestruct (axis_runs g e kx ky 0 Hk3 0%nat (g_nx g) kx W2 (fun x => [(x, i, 0%nat)]) mod_none i 0%nat)
+    as (s' & E & S' & K); revgoals.
+  1: { exists s'. split; [exact E|]. rewrite flat_map_single in S'. split; [exact S'|].
+       intros v Hm. destruct (mod_x_keep v Hm). apply K; [reflexivity|assumption|assumption]. }
+  all: try sem. all: try exact HSt. all: try exact HN0. all: try (apply Hk). all: try (intros s0 P0; apply P0).
+  all: try (split; assumption).
+  - split; [exact Hi|]. rewrite Hd. reflexivity.
+  - intros cells0 s0 x S0 X0 O0 L0.
+    destruct (HW2 cells0 s0 x i 0%nat S0 X0 O0 L0 Li ltac:(rewrite nz_1; lia)) as (s1 & E' & S1 & G').
+    exists s1. split; [exact E'|]. split; [exact S1|]. intros v _. apply G'.
+Qed.
+
+Lemma X2 s : St g e kx ky 0 [] s -> exists s', exec e x_if_2d s = Some s' /\ St (translate_x g kx e) e kx ky 0 [] s'.
+Proof.
+  intros HSt. pose proof nb as (Px & Py & Pz & Bx & By & Bz).
+  assert (HP : get s (VPar 0) = kx) by apply HSt.
+  unfold x_if_2d, src_translate_2d. cbn [seq1].
+  destruct (Z.eq_dec kx 0) as [Z0|NZ].
+  - rewrite exec_if_false by (cbn [eval]; rewrite HP, Z0; reflexivity). cbn [exec].
+    exists s. split; [reflexivity|]. replace (translate_x g kx e) with g by (unfold translate_x; rewrite Z0; reflexivity). exact HSt.
+  - rewrite (exec_if_true e _ _ _ s kx) by first [exact NZ | (cbn [eval]; rewrite HP; reflexivity)]. rewrite exec_seq.
+    edestruct (axis_full g e kx ky 0 Hk3 1%nat (g_ny g) 0 x_body_2d (fun y => row y 0 (axis_run (g_nx g) kx)) mod_x 0%nat 0%nat)
+      with (cells := @nil idx) (s := s) as (s1 & E1 & S1 & K1); revgoals.
+    1: { unfold x_body_2d, x_if_2d, src_translate_2d in E1. cbn [for_body seq1 if_then] in E1. rewrite E1. cbn [bind].
+      destruct S1 as (F1 & P1 & B1). pose proof (frame2_of _ F1) as (N0 & N1 & M0 & M1 & C0 & C1 & O0 & O1).
+      erewrite exec_set; [| apply (offset_update s1 0 (g_ox g) (g_nx g) kx); try assumption; [apply P1|apply Hk]].
+      eexists; split; [reflexivity|]. apply St_after_x; [exact Hv|exact NZ|]. rewrite cells_x_2d. split; [exact F1|]. split; [exact P1|exact B1]. }
+    all: try sem. all: try exact HSt. all: try exact HN1. all: try (split; assumption).
+    + cbn. unfold z_at. rewrite Hd. reflexivity.
+    + intros cells0 s0 i S0 I0 _ L0. apply x_body_2d_ok; assumption.
+    + intros b Hb. destruct b as [|[|b]]; [lia|lia|reflexivity].
+Qed.
+
+Lemma mod_x0_keep v : mod_x0 v = false -> var_eqb v (VIdx 0) = false.
+Proof. destruct v as [[|?]|?|?|?|?|?|?|?|?]; cbn; intros H; try discriminate H; reflexivity. Qed.
+
+(* the row loop  for (x = 0; x < nx; x++) W  at row i *)
+Lemma row_2d_ok init cond step count cells s i :
+  (forall s : state, exec e init s = Some (set s (VIdx 0) 0)) ->
+  (forall s : state, eval cond s = Some (b2z (get s (VIdx 0) <? get s (VN 0)))) ->
+  (forall s : state, exec e step s = Some (set s (VIdx 0) ((get s (VIdx 0) + 1) mod two64))) ->
+  (forall s : state, eval count s = Some (get s (VN 0) - get s (VIdx 0))) ->
+  St g e kx ky 0 cells s -> get s (VIdx 1) = Z.of_nat i -> (i < g_ny g)%nat ->
+  exists s', exec e (SFor init cond step W2 count) s = Some s' /\ St g e kx ky 0 (cells ++ row i 0 (all (g_nx g))) s' /\
+             (forall v, mod_x0 v = false -> get s' v = get s v).
+Proof.
+  intros H1 H2 H3 H4 HSt Hi Li. pose proof nb as (Px & Py & Pz & Bx & By & Bz).
+  destruct (axis_full g e kx ky 0 Hk3 0%nat (g_nx g) 0 W2 (fun x => [(x, i, 0%nat)]) mod_none i 0%nat) with
+    (init := init) (cond := cond) (step := step) (count := count) (cells := cells) (s := s) as (s' & E & S' & K); try assumption.
+  - split; assumption.
+  - exact HN0.
+  - unfold two31; lia.
+  - reflexivity.
+  - reflexivity.
+  - intros cells0 s0 x S0 X0 O0 L0.
+    destruct (HW2 cells0 s0 x i 0%nat S0 X0 O0 L0 Li ltac:(rewrite nz_1; lia)) as (s1 & E' & S1 & G').
+    exists s1. split; [exact E'|]. split; [exact S1|]. intros v _. apply G'.
+  - split; [exact Hi|]. rewrite Hd. reflexivity.
+  - exists s'. split; [exact E|]. rewrite flat_map_single in S'. split; [exact S'|].
+    intros v Hm. apply K; [reflexivity|apply mod_x0_keep, Hm].
+Qed.
+
+Lemma Y2 s : St g e kx ky 0 [] s -> exists s', exec e y_if_2d s = Some s' /\ St (translate_y g ky e) e kx ky 0 [] s'.
+Proof.
+  intros HSt. pose proof nb as (Px & Py & Pz & Bx & By & Bz).
+  assert (HP : get s (VPar 1) = ky) by apply HSt.
+  unfold y_if_2d, src_translate_2d. cbn [seq2].
+  destruct (Z.eq_dec ky 0) as [Z0|NZ].
+  - rewrite exec_if_false by (cbn [eval]; rewrite HP, Z0; reflexivity). cbn [exec].
+    exists s. split; [reflexivity|]. replace (translate_y g ky e) with g by (unfold translate_y; rewrite Z0; reflexivity). exact HSt.
+  - rewrite (exec_if_true e _ _ _ s ky) by first [exact NZ | (cbn [eval]; rewrite HP; reflexivity)]. rewrite reassoc_runs.
+    match goal with |- context [SSeq (SFor ?i ?c ?st ?b ?n) (SSet (VIdx 1) _)] =>
+      edestruct (axis_runs g e kx ky 0 Hk3 1%nat (g_ny g) ky (SFor i c st b n) (fun y => row y 0 (all (g_nx g))) mod_x0 0%nat 0%nat)
+        with (cells := @nil idx) (s := s) as (s1 & E1 & S1 & K1) end; revgoals.
+    1: { rewrite E1. cbn [bind].
+      destruct S1 as (F1 & P1 & B1). pose proof (frame2_of _ F1) as (N0 & N1 & M0 & M1 & C0 & C1 & O0 & O1).
+      erewrite exec_set; [| apply (offset_update s1 1 (g_oy g) (g_ny g) ky); try assumption; [apply P1|apply Hk]].
+      eexists; split; [reflexivity|]. apply St_after_y; [exact Hv|exact NZ|]. rewrite cells_y_2d. split; [exact F1|]. split; [exact P1|exact B1]. }
+    all: try sem. all: try exact HSt. all: try exact HN1. all: try (apply Hk). all: try (intros s0 P0; apply P0).
+    all: try (split; assumption).
+    + cbn. unfold z_at. rewrite Hd. reflexivity.
+    + intros cells0 s0 i S0 I0 _ L0. apply row_2d_ok; try assumption; sem.
+    + intros b Hb. destruct b as [|[|b]]; [lia|lia|reflexivity].
+Qed.
+
+End TwoD.
+
+(* ------------------------------------------------------------------ translate, DIM == 2 *)
+Lemma fits_shape (g g' : wgrid) : same_shape g g' -> fits g -> fits g'.
+Proof. intros (_ & A & B & C). unfold fits. rewrite A, B, C. tauto. Qed.
+
+Theorem translate_2d_tie (g : wgrid) (e : V) (kx ky kz : Z) (s : state) :
+  valid g -> g_dim3 g = false -> fits g ->
+  - two31 <= kx < two31 -> - two31 <= ky < two31 ->
+  represents s g -> get s (VPar 0) = kx -> get s (VPar 1) = ky ->
+  exists s', exec e src_translate_2d s = Some s' /\ represents s' (translate g kx ky kz e).
+Proof.
+  intros Hv Hd Hf Hkx Hky (F & Bf) Px Py.
+  assert (HSt : St g e kx ky 0 [] s).
+  { split; [exact F|]. split; [|exact Bf]. split; [exact Px|]. split; [exact Py|]. rewrite Hd. discriminate. }
+  destruct (X2 g e kx ky Hv Hd Hf (conj Hkx Hky) s HSt) as (s1 & E1 & S1).
+  pose proof (translate_x_valid g kx e Hv) as Hv1. pose proof (translate_x_shape g kx e) as Sh1.
+  assert (Hd1 : g_dim3 (translate_x g kx e) = false) by (destruct Sh1 as (D & _); rewrite D; exact Hd).
+  destruct (Y2 (translate_x g kx e) e kx ky Hv1 Hd1 (fits_shape _ _ Sh1 Hf) (conj Hkx Hky) s1 S1) as (s2 & E2 & S2).
+  exists s2. rewrite split_2d, exec_seq, E1. cbn [bind]. split; [exact E2|].
+  unfold translate. cbn zeta. rewrite Hd. destruct S2 as (F2 & _ & B2). split; [exact F2|exact B2].
+Qed.
+
 End Tie.
